@@ -80,6 +80,7 @@ struct LtWorld : World {
         if (c14 && r.chance(1, 8) && (op.k == LT_PUT || op.k == LT_GET || op.k == LT_REMOVE)) op.d |= r.chance(1, 2) ? NULLKEY : (op.k == LT_PUT ? NULLDATA : NULLKEY);
         return op;
     }
+    bool result_is_ambiguous(const Op &op) const override { return op.k == LT_SORT || op.k == LT_CLEAR || op.k == LT_REMOVE    /* void, void, a count */; }
     bool is_mutation(const Op &op) const override { return op.k == LT_LOADFILE || op.k == LT_PUT || op.k == LT_REMOVE || op.k == LT_WALKREMOVE || op.k == LT_SORT || op.k == LT_CLEAR; }
 
     void init(const Cfg &c) override {
@@ -265,8 +266,10 @@ struct LtWorld : World {
             qlisttbl_obj_t o; memset(&o, 0, sizeof o);
             Bytes out; size_t cnt = 0, guard = t->size(t) * 2 + 8; int removed = 0; bool failed = false; int fired_seen = sim_fault_fired(), retries = 0;
             for (;;) {
+                void *n0 = o.name, *d0 = o.data;
                 bool more; { InSut s; more = t->getnext(t, &o, kp, newmem); }
-                if (!more && newmem && sim_fault_fired() > fired_seen && retries < 1) { fired_seen = sim_fault_fired(); retries++; x.st.add("probe.walk_step_retried_after_enomem"); continue; }
+                if (!more && sim_fault_fired() > fired_seen) { check_cursor_ptr(x, "name", n0, o.name); check_cursor_ptr(x, "data", d0, o.data); }
+                if (!more && newmem && sim_fault_fired() > fired_seen && retries < 1) { fired_seen = sim_fault_fired(); retries++; failed = true; x.st.add("probe.walk_step_retried_after_enomem"); continue; }   // a step reported failure: so does the walk (the retry only probes that the cursor is still safe to use)
                 if (!more) { if (sim_fault_fired() > fired_seen) failed = true; break; }
                 Bytes nm(o.name), v((const char *)o.data, o.size);
                 enc(out, nm); enc(out, v);
